@@ -29,6 +29,7 @@ def parseOp (tok : String) : Option Op :=
   | ["infos", t, n] => match hexToChars t, nat? n with
     | some t, some n => some (.infos t n)
     | _, _ => none
+  | ["info", p] => (hexToChars p).map .info
   | ["idle", i] => (nat? i).map .postIdle
   | ["probe", i] => (nat? i).map .probe
   | _ => none
@@ -49,6 +50,8 @@ def showObs : Obs → String
   | .cid o => "c" ++ optNat o
   | .cnt a b => s!"n{a}/{b}"
   | .paths t ps => s!"p{t}[" ++ ",".intercalate (ps.map charsToHex) ++ "]"
+  | .sinfo none => "inil"
+  | .sinfo (some (p, cc)) => s!"i{charsToHex p}/{cc}"
   | .tick (.ran c) => "t" ++ boolStr c
   | .tick .panic => "tpanic"
   | .tick .bad => "tbad"
